@@ -796,3 +796,165 @@ def ctl_unsorted_start_tasks(ctx):
     pred, repl = M.unwrap_call("sorted")
     return _edit_control(ctx, "unsorted_start_tasks", MODELS, "TaskMappingSpec.get_start_tasks",
                          pred, repl, [OR.rule_N2], what="start tasks in declaration order")
+
+
+# ---------------------------------------------------------------------- V3 / G6 / J1
+def ctl_join_by_truth(ctx):
+    """is_join_task decides by the truth of the declared join instead of its presence."""
+    import ast
+    from sa import shape as SH
+
+    def pred(n):
+        return isinstance(n, ast.Compare) and len(n.ops) == 1 and isinstance(
+            n.ops[0], ast.IsNot) and "join" in ast.unparse(n.left)
+
+    def repl(n):
+        return ast.Call(func=ast.Name(id="bool", ctx=ast.Load()), args=[n.left], keywords=[])
+
+    return _edit_control(ctx, "join_by_truth", MODELS, "TaskMappingSpec.is_join_task", pred, repl,
+                         [SH.rule_V3], what="join presence decided by truthiness")
+
+
+def ctl_conditional_edge_lookup(ctx):
+    """the composer looks an edge up only on some visits."""
+    import ast
+    from sa import shape as SH
+
+    def pred(n):
+        return isinstance(n, ast.Assign) and isinstance(n.value, ast.Call) and \
+            isinstance(n.value.func, ast.Attribute) and n.value.func.attr == "has_transition"
+
+    def repl(n):
+        n.value = ast.BoolOp(op=ast.And(), values=[ast.Name(id="splits", ctx=ast.Load()), n.value])
+        return n
+
+    return _edit_control(ctx, "conditional_edge_lookup", "orquesta/composers/native.py",
+                         "WorkflowComposer._compose_wf_graph", pred, repl, [SH.rule_G6],
+                         what="edge look-up skipped on some visits")
+
+
+def ctl_render_every_string(ctx):
+    """the raw-block re-render of JinjaEvaluator.evaluate loses its `and raw_blocks` gate."""
+    import ast
+    from sa import shape as SH
+
+    def pred(n):
+        return isinstance(n, ast.If) and isinstance(n.test, ast.BoolOp) and \
+            "raw_blocks" in ast.unparse(n.test) and "isinstance" in ast.unparse(n.test)
+
+    def repl(n):
+        n.test = n.test.values[0]
+        return n
+
+    return _edit_control(ctx, "render_every_string", "orquesta/expressions/jinja.py",
+                         "JinjaEvaluator.evaluate", pred, repl, [SH.rule_J1],
+                         what="template render of every string result")
+
+
+# ---------------------------------------------------------------------- P14 / F12
+def _is_machine_stmt(n):
+    import ast
+    return isinstance(n, ast.Expr) and isinstance(n.value, ast.Call) and \
+        "TaskStateMachine.process_event" in ast.unparse(n.value.func)
+
+
+def ctl_swallow_report(ctx):
+    """update_task_state returns silently for some reports before the task machine."""
+    import ast
+    from sa import paths as P
+
+    def repl(n):
+        guard = ast.parse("if self.get_workflow_status() == statuses.CANCELED:\n    return None").body[0]
+        return [guard, n]
+
+    return _edit_control(ctx, "swallow_report", COND, "WorkflowConductor.update_task_state",
+                         _is_machine_stmt, repl, [P.rule_P14], what="report dropped without error")
+
+
+def ctl_fail_on_machine_error(ctx):
+    """an error of the task machine is converted into a failed-workflow request."""
+    import ast
+    from sa import paths as P
+
+    def repl(n):
+        t = ast.parse("try:\n    pass\nexcept Exception as e:\n"
+                      "    self.request_workflow_status(statuses.FAILED)\n"
+                      "    return task_state_entry").body[0]
+        t.body = [n]
+        return t
+
+    return _edit_control(ctx, "fail_on_machine_error", COND, "WorkflowConductor.update_task_state",
+                         _is_machine_stmt, repl, [P.rule_F12],
+                         what="machine error converted into a workflow failure")
+
+
+# ---------------------------------------------------------------------- F13 / F14 / M2 / P15
+def ctl_render_on_completion(ctx):
+    """update_task_state renders the workflow output on its own at the end."""
+    import ast
+    from sa import shape as SH
+
+    def pred(n):
+        return isinstance(n, ast.Return) and isinstance(n.value, ast.Name) and \
+            n.value.id == "task_state_entry"
+
+    def repl(n):
+        return [ast.parse("self.render_workflow_output()").body[0], n]
+
+    return _edit_control(ctx, "render_on_completion", COND, "WorkflowConductor.update_task_state",
+                         pred, repl, [SH.rule_F13], what="output rendered by the conductor itself")
+
+
+def ctl_clear_staging_on_request(ctx):
+    """request_workflow_status removes staged entries."""
+    import ast
+    from sa import shape as SH
+
+    def pred(n):
+        return isinstance(n, ast.Expr) and isinstance(n.value, ast.Call) and \
+            "WorkflowStateMachine.process_event" in ast.unparse(n.value.func)
+
+    def repl(n):
+        loop = ast.parse("for entry in list(self.workflow_state.staged):\n"
+                         "    self.workflow_state.staged.remove(entry)").body[0]
+        return [n, loop]
+
+    return _edit_control(ctx, "clear_staging_on_request", COND,
+                         "WorkflowConductor.request_workflow_status", pred, repl, [SH.rule_F14],
+                         what="staged entries removed outside a report")
+
+
+def ctl_filter_published_delta(ctx):
+    """the stored delta is filtered against the current context."""
+    import ast
+    from sa import shape as SH
+
+    def pred(n):
+        return isinstance(n, ast.If) and isinstance(n.test, ast.Name) and n.test.id == "new_ctx"
+
+    def repl(n):
+        flt = ast.parse("new_ctx = {k: v for k, v in new_ctx.items() if current_ctx.get(k) != v}").body[0]
+        return [flt, n]
+
+    return _edit_control(ctx, "filter_published_delta", COND, "WorkflowConductor.update_task_state",
+                         pred, repl, [SH.rule_M2], what="published delta filtered by value")
+
+
+def ctl_skip_transitions_when_canceling(ctx):
+    """the transitions of a completed task are not evaluated while canceling."""
+    import ast
+    from sa import shape as SH
+
+    def pred(n):
+        return isinstance(n, ast.If) and "COMPLETED_STATUSES" in ast.unparse(n.test) and \
+            "old_task_status" in ast.unparse(n.test)
+
+    def repl(n):
+        extra = ast.parse("self.get_workflow_status() not in statuses.CANCEL_STATUSES",
+                          mode="eval").body
+        n.test = ast.BoolOp(op=ast.And(), values=[n.test, extra])
+        return n
+
+    return _edit_control(ctx, "skip_transitions_when_canceling", COND,
+                         "WorkflowConductor.update_task_state", pred, repl, [SH.rule_P15],
+                         what="transitions skipped under an extra condition")
